@@ -4,6 +4,8 @@ from __future__ import annotations
 import ctypes
 import functools
 import json
+import os
+import sys
 import math
 import re
 import time
@@ -711,14 +713,93 @@ def shard(seed: int, n: int) -> Result:
     hyp_run(lambda t: run_case(t, res), registry_case(), seed * 8 + 7, max(1, n // 2), res)
     return res
 
+# ------------------------------------------------------------------------------------------------
+# fields named like the conversion API itself, through the real compiler
+API_NAMES = ["to_dict", "to_json", "from_dict", "from_json", "copy", "pretty_print", "from_random", "get_field_raw", "hexdump", "type_size",
+             "from_buffer", "from_buffer_copy", "value", "fields", "data", "header"]
+
+
+def api_named_case(name: str) -> str:
+    """A definition file with a message that has a field called like one of the methods the round trips go through is either
+    refused by the compiler, or its generated class converts like any other.  Returns "refused" or "accepted"."""
+    import importlib.util
+    import tempfile
+
+    from vlib import langs
+
+    trace = {"sub": "api-named-field", "name": name}
+    text = (f"message_defs:\n  API_HOLDER:\n    id: 4700\n    fields:\n      first: int32\n      {name}: int32\n      last: double\n"
+            f"  API_PLAIN:\n    id: 4701\n    fields:\n      a: int32\n      b: int32\n      c: double\n")
+    with tempfile.TemporaryDirectory(prefix="verif_c10_") as d:
+        try:
+            c = langs.compile_program({"files": {"root.yaml": text}, "root": "root.yaml"}, os.path.join(d, "out"), outputs=("py",),
+                                      src_dir=os.path.join(d, "src"), import_coredefs=False)
+        except langs.CompileError as e:
+            if e.is_parser_error:
+                return "refused"  # one of the compiler's own errors
+            raise Violation("api-named-field/internal-error", f"a field named {name}: compile() raised {e.kind}: {e.exc}", trace)
+        modname = "verif_c10_api_defs_" + name
+        spec = importlib.util.spec_from_file_location(modname, c.paths["py"])
+        mod = importlib.util.module_from_spec(spec)
+        sys.modules[modname] = mod
+        try:
+            spec.loader.exec_module(mod)
+        except BaseException as e:  # noqa
+            sys.modules.pop(modname, None)
+            raise Violation("api-named-field/module-does-not-import", f"a field named {name} was accepted, the generated module raises "
+                            f"{type(e).__name__}: {e}", trace)
+        cls = mod.MDF_API_HOLDER
+        m = cls()
+        try:
+            m.first, m.last = 7, -2.5
+            setattr(m, name, 1234)
+            want = bytes(m)
+            routes = {
+                "dict": lambda: cls.from_dict(m.to_dict()),
+                "json": lambda: cls.from_json(m.to_json()),
+                "json-minified": lambda: cls.from_json(m.to_json(minify=True)),
+                "copy": lambda: cls.copy(m),
+            }
+            for rname, fn in routes.items():
+                got = bytes(fn())
+                if got != want:
+                    raise Violation(f"api-named-field/bytes-differ/{rname}", f"a field named {name} was accepted; {rname} round trip of the "
+                                    f"generated class gives {got.hex()} for {want.hex()}", trace)
+        except Violation:
+            raise
+        except BaseException as e:  # noqa
+            raise Violation("api-named-field/conversion-raises", f"a field named {name} was accepted by the compiler, but the generated class "
+                            f"no longer converts: {type(e).__name__}: {e}", trace)
+    return "accepted"
+
+
+def shard_api(_unused) -> Result:
+    res = Result()
+    for name in API_NAMES:
+        try:
+            out = api_named_case(name)
+            res.count("api-named-field-" + out)
+        except Violation as v:
+            res.add_finding(v.key, v.what, v.trace)
+        res.evaluations += 1
+        res.shape("api-named", name)
+    return res
+
+
+def shard_any(kind, *a):
+    return shard_api(*a) if kind == "api" else shard(*a)
+
 
 def run(ctx: RunContext) -> int:
     t0 = time.time()
     n = ctx.scale(300, 6000)
-    res = run_shards(shard, [(derive_seed(ctx.seed, i), n) for i in range(16)])
+    res = run_shards(shard_any, [("hyp", derive_seed(ctx.seed, i), n) for i in range(16)] + [("api", 0)])
     return conclude(ctx, res, RULE, ASSUME, t0)
 
 
 def replay_trace(trace: dict) -> None:
     """Re-execute one concrete case without Hypothesis; raises Violation if the property still fails."""
+    if trace.get("sub") == "api-named-field":
+        api_named_case(trace["name"])
+        return
     run_case(trace, Result())
